@@ -223,3 +223,33 @@ def c07_positions(tier="quick", seed=0):
             o["finding_key"] = o["id"]
             out.append(o)
     return out
+
+
+# ---- fixed probes (known deviations are listed in /verif/known_findings.json and reported as KNOWN-FINDING) ------------------
+PROBES_C07 = [('throw-location-inside-function', "function f(){ throw new Error('x') }\nvar r; try { f() } catch (e) { r = [e.lineNumber, e.columnNumber].join() } r", '1,15')]
+groups.register_probes("C07", PROBES_C07)
+
+
+# regression probes: what code run by a built-in in a VM of its own leaves uncaught reaches the calling script's handlers
+PROBES_C07 += [
+    ("eval-syntax-error-catchable", "var r; try { eval('(') } catch (e) { r = 'caught ' + e.name } r", "caught SyntaxError"),
+    ("eval-throw-keeps-value", "var o = {k: 1}; var r; try { eval('throw o') } catch (e) { r = (e === o) } r", True),
+    ("eval-runtime-error-kind", "var r; try { eval('null.x') } catch (e) { r = e.name + ':' + (e instanceof TypeError) } r", "TypeError:true"),
+    ("Function-syntax-error-catchable", "var r; try { new Function('(') } catch (e) { r = e.name } r", "SyntaxError"),
+    ("Function-throw-catchable", "var r; try { new Function('throw 7')() } catch (e) { r = e } r", 7),
+    ("getter-throw-through-Object.values", "var r; try { Object.values({get x(){ throw new Error('g') }}) } catch (e) { r = e.message } r", "g"),
+    ("setter-throw-through-Object.assign", "var r; try { Object.assign({set x(v){ throw new RangeError('boom') }}, {x: 1}) } catch (e) { r = e.name + e.message } r", "RangeErrorboom"),
+    ("eval-throw-in-callback", "var r; try { [1].map(function(){ return eval('throw 5') }) } catch (e) { r = e } r", 5),
+    ("eval-throw-runs-finally-once", "var r = []; try { try { eval('throw 1') } finally { r.push('f') } } catch (e) { r.push(e) } r.join()", "f,1"),
+    ("uncaught-names-the-error", lambda Context: _uncaught(Context, "throw new TypeError('tt')"), "TypeError: tt"),
+    ("uncaught-array", lambda Context: _uncaught(Context, "throw [1, 2]"), "Error: 1,2"),
+    ("uncaught-from-eval", lambda Context: _uncaught(Context, "eval(\"throw new RangeError('r')\")"), "RangeError: r"),
+]
+
+
+def _uncaught(Context, src):
+    try:
+        Context(time_limit=10).eval(src)
+        return "no error"
+    except Exception as e:  # noqa
+        return f"{type(e).__name__}|{e}".split("|", 1)[1] if type(e).__name__ == "JSError" else f"{type(e).__name__}: {e}"
